@@ -825,8 +825,24 @@ func (w *RouteWorld) c04Sig(c *srcConn, t *srcTask, k taskKey) string {
 	// multi-instance deployment: the hand-off across the intra-proxy hop is fire-and-forget. The
 	// task was written to an intra-proxy stream (which is when the source's instance counts it
 	// as handed off), that stream has since been torn down, and no target stream ever got it.
-	if hops := w.intraSent[k]; len(ds) == 0 && len(hops) > 0 && hops[len(hops)-1].st.Dead() {
-		return "in-flight-on-intra-proxy-hop-lost"
+	if hops := w.intraSent[k]; len(ds) == 0 && len(hops) > 0 {
+		h := hops[len(hops)-1]
+		if h.st.Dead() {
+			return "in-flight-on-intra-proxy-hop-lost"
+		}
+		// the same loss before the hop is torn down: the target shard's stream has moved away from
+		// the instance the task was handed to; the task waits in that instance's intra-proxy
+		// receiver for a local stream that is not coming back (until the reconcile loop closes the
+		// hop), while the shard's new stream on another instance acknowledges watermarks
+		var cur *tgtConn
+		for _, tc := range osh.allTgt {
+			if tc.diedAt == 0 {
+				cur = tc
+			}
+		}
+		if cur == nil || cur.inst.name != h.to {
+			return "in-flight-on-intra-proxy-hop-lost"
+		}
 	}
 	return ""
 }
